@@ -43,7 +43,7 @@ def run(tier, argv):
     rep.cov["exhaustive"] = True
     rep.cov["rule"] = "%d schemas (rule families + notes, named/inline enums, allOf, shortcuts, or rule-sets, nested containers, escaped keys) with the AST computed by Ast!RootAST" % n
     # which node an annotation belongs to: Bind.tla (I = R on every layout, both switches still violate), every layout through the real loader
-    ma = "2" if quick else "5"
+    ma = "2" if quick else "4"
     rb = vlib.tlc(work, "Bind", "Bind.cfg", consts={"MaxAnn": ma}, timeout=3000, heap="8g")
     rep.add_tlc(rb, "Bind: loader algorithm = reading of the notation on every layout with <= %s annotations (Agree)" % ma)
     for sw in ("NoteAfterBraceToLast", "NoteBeforeValueToPrev"):
@@ -51,7 +51,7 @@ def run(tier, argv):
         if not rv.violation:
             raise vlib.Infra("vacuous: switch %s no longer violates Bind!Agree" % sw)
     rawb = work.path("bind.txt")
-    rb = vlib.tlc(work, "Bind", "Bind.cfg", consts={"MaxAnn": "3" if quick else "5", "Export": "TRUE"}, to_file=rawb, timeout=3000, workers=1, heap="8g")
+    rb = vlib.tlc(work, "Bind", "Bind.cfg", consts={"MaxAnn": "2" if quick else "4", "Export": "TRUE"}, to_file=rawb, timeout=3000, workers=1, heap="8g")
     bcases = work.path("bind.ndjson")
     nb = 0
     with open(bcases, "w") as f:
